@@ -6,7 +6,7 @@ from typing import List, Optional
 
 from ..model import AnalysisError, ClassInfo, FuncInfo, Program, dotted, own_nodes, unparse
 from ..symex import facts_for, phi_alternatives, is_call_to, PHI
-from .common import U, const_value, is_self_attr, returns_of, short, np_call, kwarg
+from .common import result_sites, U, const_value, is_self_attr, returns_of, short, np_call, kwarg
 from . import c18
 
 PS = "pygradflow.penalty.PenaltyStrategy"
@@ -119,8 +119,7 @@ def run(prog: Program, rep, tier: str) -> None:
             rep.check(good, "penalty-monotone-store", upd.qualname, short(st),
                       f"the value stored to the policy's rho is >= the old one (value: {U(val)[:120]})", upd.loc(st))
         # --- returned penalties ------------------------------------------------------
-        for r in returns_of(upd):
-            v = r.value
+        for r, v in result_sites(upd, ff):
             nm = dotted(v.func) if isinstance(v, ast.Call) else None
             if not (nm and (nm.endswith("accept_with_penalty") or nm.endswith("reject_with_penalty") or nm.endswith("PenaltyResult"))):
                 rep.fail("penalty-result-form", upd.qualname, short(r), "VIOLATED: update() returns something other than a PenaltyResult factory call", upd.loc(r))
